@@ -194,6 +194,22 @@ func c10Sequences(rng *rand.Rand, n int) [][]wsMsg {
 	for i := 0; i < n; i++ {
 		var seq []wsMsg
 		k := 2 + rng.Intn(5)
+		if i%12 == 5 {
+			// control frames are peer input too: bursts of pings (and unsolicited pongs) while the server is
+			// busy writing large responses to this peer
+			for j := 0; j < 6; j++ {
+				seq = append(seq, wsMsg{websocket.TextMessage, []byte(fmt.Sprintf(`{"jsonrpc":"2.0","id":"big%d","method":"S.Big","params":["Tqx%d",%d]}`, j, rng.Intn(1e6), 1<<20))})
+				for p := 0; p < 40; p++ {
+					typ := websocket.PingMessage
+					if p%8 == 7 {
+						typ = websocket.PongMessage
+					}
+					seq = append(seq, wsMsg{typ, []byte(fmt.Sprintf("p%d", p))})
+				}
+			}
+			out = append(out, seq)
+			continue
+		}
 		for j := 0; j < k; j++ {
 			var f string
 			switch rng.Intn(10) {
@@ -245,6 +261,12 @@ func seqString(seq []wsMsg) string {
 		t := "T"
 		if m.typ == websocket.BinaryMessage {
 			t = "B"
+		}
+		if m.typ == websocket.PingMessage {
+			t = "PING"
+		}
+		if m.typ == websocket.PongMessage {
+			t = "PONG"
 		}
 		parts = append(parts, t+":"+core.Trunc(string(m.data), 160))
 	}
